@@ -18,7 +18,7 @@ import (
 // evil is the attacker: it owns a long-term key, speaks the protocol through the
 // reference implementation (ref.go) and deviates where a scenario tells it to.
 type evil struct {
-	e    *end
+	e    io.ReadWriter // *end of the harness duplex, or a TCP connection
 	r    *rand.Rand
 	key  *ecdsa.PrivateKey
 	pub  [32]byte // ephemeral key it considers its own
@@ -27,7 +27,7 @@ type evil struct {
 	log  []string
 }
 
-func newEvil(e *end, r *rand.Rand, key *ecdsa.PrivateKey) *evil {
+func newEvil(e io.ReadWriter, r *rand.Rand, key *ecdsa.PrivateKey) *evil {
 	m := &evil{e: e, r: r, key: key}
 	m.pub, m.priv = refEphemeral(r)
 	return m
@@ -36,7 +36,12 @@ func newEvil(e *end, r *rand.Rand, key *ecdsa.PrivateKey) *evil {
 // hangUp: the attacker has said everything: it closes its sending direction (the endpoint
 // sees the end of the stream after what was sent) and reads until the endpoint hangs up.
 func (m *evil) hangUp() {
-	m.e.out.closeWrite()
+	switch e := m.e.(type) {
+	case *end:
+		e.out.closeWrite()
+	case interface{ CloseWrite() error }:
+		e.CloseWrite()
+	}
 	io.Copy(io.Discard, m.e)
 }
 
